@@ -325,6 +325,9 @@ class CFG:
         new_productions = []
         for terminal in self._terminals:
             var = Variable(str(terminal.value) + "#CNF#")
+            while var in self._variables or var in term_to_var.values():
+                # The new variable must not be an existing one
+                var = Variable(str(var.value) + "#CNF#")
             term_to_var[terminal] = var
         # We want to add only the useful productions
         used = set()
